@@ -610,7 +610,7 @@ def _with_bare(b):
     return st.builds(lambda d, bare: {**d, "bare": True} if bare else d, b, st.sampled_from([False, False, False, True]))
 
 
-BEHAVIOURS = _with_bare(st.one_of(_PLAIN, _PLAIN, _US, _UO, _SN, _SN))
+BEHAVIOURS = _with_bare(st.one_of(_PLAIN, _US, _UO, _SN))
 
 _SUB = st.builds(lambda b: ["sub", b], BEHAVIOURS)
 _UNSUB = st.builds(lambda i: ["unsub", i], st.integers(0, 7))
@@ -621,20 +621,28 @@ _DISPOSE = st.just(["dispose"])
 _ADV = st.builds(lambda d: ["adv", d], st.sampled_from([0, 0, 1, 1, 1, 2, 3, 5]))
 
 
+_BY_OP = {"sub": _SUB, "next": _NEXT, "unsub": _UNSUB, "adv": _ADV, "error": _ERROR, "completed": _COMPLETED, "dispose": _DISPOSE}
+
+
 def commands(kind, active_only=False, falsy_error=False):
-    base = [_SUB] * 5 + [_NEXT] * 8 + [_UNSUB] * 2
+    """One command.  Weights are realised with sampled_from over a repeated op list (one_of would de-duplicate
+    repeated branches).  Terminals and, even more, dispose are rare: what follows them only exercises the
+    late-subscriber / DisposedException clauses."""
+    ops = ["next"] * 8 + ["sub"] * 5 + ["unsub"] * 2
     if kind == "replay":
-        base = base + [_ADV] * 6
-    if active_only:
-        return st.one_of(*base)
-    term = [_ERROR] * 2 + [_COMPLETED] * 2 + [_DISPOSE]
-    if falsy_error:
-        term = [st.just(["error", "falsy"])] * 6 + [_ERROR, _COMPLETED]
-    if kind == "async":
-        term = term + [_COMPLETED] * 2
-    # terminals and (even more) dispose are rare: what follows them only exercises the late-subscriber /
-    # DisposedException clauses
-    return st.one_of(*(base * 4 + term))
+        ops = ops + ["adv"] * 6
+    ops = ops * 4
+    if not active_only:
+        ops = ops + ["error"] * 2 + ["completed"] * (4 if kind == "async" else 2) + ["dispose"]
+        if falsy_error:
+            ops = ops + ["falsy"] * 8
+    by_op = dict(_BY_OP, falsy=st.just(["error", "falsy"]))
+
+    @st.composite
+    def _cmd(draw):
+        return draw(by_op[draw(st.sampled_from(ops))])
+
+    return _cmd()
 
 
 def configs(kind):
@@ -647,13 +655,19 @@ def configs(kind):
     return st.just({})
 
 
+def _sized(elem, mins, hi):
+    """Lists with a mix of minimum sizes (Hypothesis' default average list length is ~6 whatever max_size is);
+    shrinks towards the first (smallest) branch."""
+    return st.one_of(*[st.lists(elem, min_size=lo, max_size=hi) for lo in mins if lo <= hi])
+
+
 def histories(kind, max_cmds, falsy_error=False):
     """An 'active' prefix (no terminal, no dispose) followed by a general tail; one JSON list, shrinks as one value."""
     half = max(1, max_cmds // 2)
     cmds = st.builds(
         lambda a, b: a + b,
-        st.lists(commands(kind, active_only=True), min_size=0, max_size=half),
-        st.lists(commands(kind, falsy_error=falsy_error), min_size=1, max_size=half),
+        _sized(commands(kind, active_only=True), (0, 6, 14, 30), half),
+        _sized(commands(kind, falsy_error=falsy_error), (1, 5, 12), half),
     )
     return st.fixed_dictionaries({"cfg": configs(kind), "cmds": cmds})
 
